@@ -1,3 +1,315 @@
 import Cppcms.Common
-/-! Line-protocol driver for C17 (stub: model not written yet). -/
-def main : IO Unit := Cppcms.lineLoop () (fun s _ => (s, "unimplemented"))
+import Cppcms.C17.Model
+import Cppcms.C17.Spec
+/-!
+Line-protocol driver for C17.
+
+`L <nsock> <ntimer> P0=<ops> P1=<ops> … S <script ops>` : one event-loop scenario.  The script is the
+history: ops issued by the driving thread while the loop thread is parked at its poll point
+(`polling_ = true`), `step[:f]` = let the loop thread run one full `run_one` iteration reporting only
+socket `f`'s readiness; a handler with program `Pi` issues `Pi`'s ops from inside its invocation
+(loop thread, `polling_ = false`).  Everything is executed with `Model.opStep` / `Model.loopStep`.
+
+`K <threads> <ops>` : one thread-pool scenario.
+`J …` / `JK …` : the property predicates of `Spec.lean` evaluated on observations of the real code.
+-/
+open Cppcms Cppcms.C17
+
+inductive SOp
+  | post (p : Nat)
+  | pev (p : Nat) (c : Code)
+  | tm (k dl p : Nat)
+  | tc (k : Nat)
+  | arm (f : Option Nat) (e : Ev) (p : Nat)
+  | ca (f : Nat)
+  | cl (f : Nat)
+  | pw (f : Nat)
+  | dr (f : Nat)
+  | stop
+  | setNow (n : Nat)
+  | start
+  | step (f : Option Nat)
+  | reset
+  | bad
+  deriving Inhabited
+
+structure Sock where
+  isOpen : Bool := true
+  pending : Nat := 0
+  deriving Inhabited
+
+structure TObj where
+  deadline : Nat := 0
+  eventId : Option Nat := none
+  deriving Inhabited
+
+structure D where
+  st : St := {}
+  progs : List (List SOp) := []
+  hprog : List Nat := []
+  htimer : List (Option Nat) := []
+  socks : List Sock := []
+  tobjs : List TObj := []
+  now : Nat := 0
+  nextSlot : Nat := 0
+  execAt : List Nat := []
+  started : Bool := false
+  resetHappened : Bool := false
+  bad : Bool := false
+
+def codeOf : String → Option Code
+  | "ok" => some .ok | "canceled" => some .canceled | "selfail" => some .selectFailed
+  | "badf" => some .badf | "syserr" => some .sysErr | _ => none
+
+def codeStr : Code → String
+  | .ok => "ok" | .canceled => "canceled" | .selectFailed => "selfail" | .badf => "badf" | .sysErr => "syserr"
+
+def parseSOp (w : String) : SOp :=
+  match w.splitOn ":" with
+  | ["post", p] => match p.toNat? with | some p => .post p | none => .bad
+  | ["pev", p, c] => match p.toNat?, codeOf c with | some p, some c => .pev p c | _, _ => .bad
+  | ["tm", k, dl, p] => match k.toNat?, dl.toNat?, p.toNat? with | some k, some dl, some p => .tm k dl p | _, _, _ => .bad
+  | ["tc", k] => match k.toNat? with | some k => .tc k | none => .bad
+  | ["ar", f, p] => match p.toNat? with
+    | some p => if f == "x" then .arm none .rd p else (match f.toNat? with | some f => .arm (some f) .rd p | none => .bad)
+    | none => .bad
+  | ["aw", f, p] => match p.toNat? with
+    | some p => if f == "x" then .arm none .wr p else (match f.toNat? with | some f => .arm (some f) .wr p | none => .bad)
+    | none => .bad
+  | ["ca", f] => match f.toNat? with | some f => .ca f | none => .bad
+  | ["cl", f] => match f.toNat? with | some f => .cl f | none => .bad
+  | ["pw", f] => match f.toNat? with | some f => .pw f | none => .bad
+  | ["dr", f] => match f.toNat? with | some f => .dr f | none => .bad
+  | ["st"] => .stop
+  | ["T", n] => match n.toNat? with | some n => .setNow n | none => .bad
+  | ["start"] => .start
+  | ["step"] => .step none
+  | ["step", f] => match f.toNat? with | some f => .step (some f) | none => .bad
+  | ["rs"] => .reset
+  | _ => .bad
+
+def sockFd (d : D) (f : Option Nat) : Option Nat :=
+  match f with
+  | none => none
+  | some f => if (d.socks.getD f {}).isOpen && f < d.socks.length then some f else none
+
+/-- bookkeeping after an op that may have issued a token -/
+def noteIssue (d : D) (before : Nat) (p : Nat) (k : Option Nat) : D :=
+  if d.st.next > before then { d with hprog := d.hprog ++ [p], htimer := d.htimer ++ [k] } else d
+
+/-- ops that may be issued from anywhere (driving thread or inside a handler) -/
+def doOp (d : D) : SOp → D
+  | .post p => noteIssue { d with st := opStep d.st .post } d.st.next p none
+  | .pev p c => noteIssue { d with st := opStep d.st (.postEv c 0) } d.st.next p none
+  | .tm k dl p =>
+    -- deadline_timer::expires_at(dl); async_wait(h): event_id_ = set_timer_event(deadline_, waiter{h})
+    let slot := d.nextSlot
+    let d' := { d with st := opStep d.st (.setTimer dl slot), nextSlot := slot + 1,
+                       tobjs := d.tobjs.set k { deadline := dl, eventId := some slot } }
+    noteIssue d' d.st.next p (some k)
+  | .tc k =>
+    -- deadline_timer::cancel(): only if event_id_ != -1
+    match (d.tobjs.getD k {}).eventId with
+    | some slot => { d with st := opStep d.st (.cancelTimer slot),
+                            tobjs := d.tobjs.set k { (d.tobjs.getD k {}) with eventId := none } }
+    | none => d
+  | .arm f e p => noteIssue { d with st := opStep d.st (.setIo (sockFd d f) e true) } d.st.next p none
+  | .ca f => { d with st := opStep d.st (.cancelIo (sockFd d (some f))) }
+  | .cl f =>
+    -- basic_io_device::close(): cancel(), then close the descriptor, fd_ = invalid_socket
+    match sockFd d (some f) with
+    | some fd => { d with st := opStep d.st (.cancelIo (some fd)), socks := d.socks.set f { isOpen := false, pending := 0 } }
+    | none => d
+  | .pw f => { d with socks := d.socks.set f { (d.socks.getD f {}) with pending := (d.socks.getD f {}).pending + 1 } }
+  | .dr f => if (d.socks.getD f {}).isOpen then { d with socks := d.socks.set f { isOpen := true, pending := 0 } } else d
+  | .stop => { d with st := opStep d.st .stop }
+  | _ => d
+
+/-- let the loop thread run until it parks in poll or leaves run() -/
+def settle : Nat → D → D
+  | 0, d => { d with bad := true }
+  | fuel+1, d =>
+    match d.st.phase with
+    | .idle | .draining => settle fuel { d with st := loopStep d.st { now := d.now } }
+    | .executing =>
+      let item := d.st.running
+      let d := { d with st := loopStep d.st { now := d.now, selOk := true } }
+      match item with
+      | some (.fn t) | some (.ev t _ _) =>
+        let d := { d with execAt := d.execAt ++ [d.now] }
+        -- deadline_timer::waiter::operator(): self->event_id_ = -1, then the user's handler
+        let d := match d.htimer.getD t.id none with
+          | some k => { d with tobjs := d.tobjs.set k { (d.tobjs.getD k {}) with eventId := none } }
+          | none => d
+        let d := (d.progs.getD (d.hprog.getD t.id 0) []).foldl doOp d
+        settle fuel d
+      | _ => settle fuel d
+    | _ => d
+
+def readyEvents (d : D) (f : Option Nat) : List Event :=
+  match sockFd d f with
+  | none => []
+  | some fd =>
+    let io := ioGet d.st.map fd
+    let rd := io.curIn && (d.socks.getD fd {}).pending > 0
+    let wr := io.curOut
+    if rd || wr then [{ fd := fd, rd := rd, wr := wr, err := false }] else []
+
+def fuelFor (d : D) : Nat := 4 * (d.st.queue.length + 4) + 16
+
+def topOp (d : D) : SOp → D
+  | .setNow n => { d with now := n }
+  | .start =>
+    if d.started then d
+    else settle 100000 { d with started := true }
+  | .step f =>
+    if d.started && d.st.phase == .polling then
+      settle 100000 { d with st := loopStep d.st { now := d.now, events := readyEvents d f } }
+    else d
+  | .reset =>
+    if d.st.phase == .stopped || d.st.phase == .failed || !d.started then
+      { d with st := opStep d.st .reset, started := false, resetHappened := true }
+    else d
+  | .bad => { d with bad := true }
+  | o => doOp d o
+
+instance : BEq Phase := ⟨fun a b => decide (a = b)⟩
+
+def aliveToks (s : St) : List Nat :=
+  (queueToks s.queue ++ (match s.running with | some q => queueToks [q] | none => []) ++ mapToks s.map
+    ++ s.timers.map (·.tok)).map (·.id)
+
+def insertSorted (x : Nat) : List Nat → List Nat
+  | [] => [x]
+  | y :: ys => if x ≤ y then x :: y :: ys else y :: insertSorted x ys
+def sortNat (l : List Nat) : List Nat := l.foldr insertSorted []
+
+def kindStr : Kind → String
+  | .plain => "p" | .timer d => s!"t:{d}" | .io => "i"
+
+def phaseStr : Phase → String
+  | .idle => "idle" | .draining => "draining" | .executing => "executing" | .polling => "polling"
+  | .stopped => "stopped" | .failed => "failed"
+
+def allToks (s : St) : List Tok :=
+  queueToks s.queue ++ (match s.running with | some q => queueToks [q] | none => []) ++ mapToks s.map
+    ++ s.timers.map (·.tok) ++ s.log.map (·.tok) ++ s.dropped ++ s.lost
+
+def render (d : D) : String :=
+  if d.bad then "bad-op" else
+  let logs := (d.st.log.zip d.execAt).map fun (e, a) => s!"{e.tok.id}:{codeStr e.code}:{a}:L"
+  let kinds := (List.range d.st.next).map fun i =>
+    match (allToks d.st).find? (·.id == i) with
+    | some t => s!"{i}:{kindStr t.kind}"
+    | none => s!"{i}:?"
+  let ph := if !d.started then "notrunning" else phaseStr d.st.phase
+  s!"log {" ".intercalate logs} | alive {" ".intercalate ((sortNat (aliveToks d.st)).map toString)} | kinds {" ".intercalate kinds} | phase {ph} | lost {d.st.lost.length}"
+
+def runLoopCase (ws : List String) : String :=
+  match ws with
+  | ns :: nt :: rest =>
+    match ns.toNat?, nt.toNat? with
+    | some ns, some nt =>
+      let progWords := rest.takeWhile (· ≠ "S")
+      let script := (rest.dropWhile (· ≠ "S")).drop 1
+      let progs := progWords.map fun w =>
+        match w.splitOn "=" with
+        | [_, body] => if body == "-" then [] else (body.splitOn ",").map parseSOp
+        | _ => [SOp.bad]
+      let d : D := { progs := progs, socks := List.replicate ns {}, tobjs := List.replicate nt {} }
+      render ((script.map parseSOp).foldl topOp d)
+    | _, _ => "bad-op"
+  | _ => "bad-op"
+
+/-! ### thread pool -/
+
+def poolDrain : Nat → Pool → Pool
+  | 0, p => p
+  | fuel+1, p =>
+    if p.queue.isEmpty || p.shutDown then poolStep p (.workerTake 0)
+    else poolDrain fuel (poolStep (poolStep p (.workerTake 0)) (.workerRun 0))
+
+def runPoolCase (ws : List String) : String :=
+  match ws with
+  | n :: ops =>
+    match n.toNat? with
+    | some n =>
+      if n == 0 then "bad-op" else
+      let p0 := poolInit n
+      -- the gate jobs: one per worker, each worker takes one and blocks in it
+      let p1 := (List.range n).foldl (fun p _ => poolStep p (.post false)) p0
+      let p2 := (List.range n).foldl (fun p w => poolStep p (.workerTake w)) p1
+      let (p, cres, released) := ops.foldl (fun (acc : Pool × List String × Bool) w =>
+        let (p, cres, released) := acc
+        let settle (p : Pool) : Pool := if released then poolDrain (p.queue.length + 2) p else p
+        match w.splitOn ":" with
+        | ["p"] => (settle (poolStep p (.post false)), cres, released)
+        | ["px"] => (settle (poolStep p (.post true)), cres, released)
+        | ["c", id] =>
+          match id.toInt? with
+          | some id =>
+            let p' := poolStep p (.cancel id)
+            (p', cres ++ [s!"{id}:{if p'.cancelled.length > p.cancelled.length then 1 else 0}"], released)
+          | none => (p, cres ++ ["bad"], released)
+        | ["stop"] => (poolStep p .stop, cres, released)
+        | ["rel"] =>
+          if released then (p, cres, released) else
+          -- gates return; every worker goes back to the top of its loop; the queue is drained
+          let p := (List.range n).foldl (fun p w => poolStep p (.workerRun w)) p
+          (poolDrain (p.queue.length + 2) p, cres, true)
+        | _ => (p, cres ++ ["bad"], released)) (p2, [], false)
+      let p := if released then p else
+        poolDrain (p.queue.length + 2) ((List.range n).foldl (fun p w => poolStep p (.workerRun w)) p)
+      let ran := (List.range p.jobId).map fun i => s!"{i}:{(p.ran.filter (fun j => j.id == Int.ofNat i)).length}"
+      s!"ran {" ".intercalate ran} | cancel {" ".intercalate cres}"
+    | none => "bad-op"
+  | _ => "bad-op"
+
+/-! ### judges -/
+
+def parseObs (w : String) : Option Spec.Obs :=
+  -- id:kind:dl:calls:code:at:onloop:alive
+  match w.splitOn ":" with
+  | [_, k, dl, calls, code, at_, onl, alive] =>
+    match dl.toNat?, calls.toNat?, code.toNat?, at_.toNat? with
+    | some dl, some calls, some code, some at_ =>
+      let kind := if k == "t" then Spec.HKind.timer dl else if k == "i" then .io else .plain
+      some { kind := kind, calls := calls, code := code, clock := at_, onLoop := onl == "1", alive := alive == "1" }
+    | _, _, _, _ => none
+  | _ => none
+
+def judgeLoop (ws : List String) : String :=
+  match ws with
+  | rst :: fin :: obs =>
+    let os := obs.map parseObs
+    if os.any (·.isNone) then "bad-op" else
+    let os := os.filterMap id
+    let ok1 := os.all (Spec.handlerOK (rst == "1"))
+    let ok2 := fin != "1" || os.all Spec.handlerDone
+    boolStr (ok1 && ok2)
+  | _ => "bad-op"
+
+def judgePool (ws : List String) : String :=
+  match ws with
+  | kept :: obs =>
+    let os := obs.map fun w =>
+      match w.splitOn ":" with
+      | [_, runs, ct] => match runs.toNat? with
+        | some r => some ({ runs := r, cancelTrue := ct == "1" } : Spec.JobObs)
+        | none => none
+      | _ => none
+    if os.any (·.isNone) then "bad-op" else
+    boolStr ((os.filterMap id).all (Spec.jobOK (kept == "1")))
+  | _ => "bad-op"
+
+def stepLine (_ : Unit) (line : String) : Unit × String :=
+  let r := match words line with
+    | "L" :: rest => runLoopCase rest
+    | "K" :: rest => runPoolCase rest
+    | "J" :: rest => judgeLoop rest
+    | "JK" :: rest => judgePool rest
+    | "C" :: _ => "ok"   -- free-running concurrency case: judged on the implementation only
+    | _ => "bad-op"
+  ((), r)
+
+def main : IO Unit := lineLoop () stepLine
